@@ -569,6 +569,33 @@ func (w *fileWeaver) stmt(outer ast.Stmt) {
 		}
 	case *ast.RangeStmt:
 		if t := w.pkg.TypesInfo.TypeOf(x.X); t != nil {
+			if _, ok := t.Underlying().(*types.Map); ok && !labeled && w.classExpr(x.X) == cNone && (x.Tok == token.DEFINE || x.Key == nil) {
+				// map iteration order is a source of nondeterminism: iterate over sorted keys
+				w.n++
+				n := w.n
+				xs := w.text(x.X)
+				w.delRange(x.Pos(), x.Body.Lbrace)
+				w.ins(x.Pos(), fmt.Sprintf("for _, _simk%d := range simrt.MapKeys(%s) ", n, xs))
+				var b strings.Builder
+				isBlank := func(e ast.Expr) bool {
+					if e == nil {
+						return true
+					}
+					id, ok := e.(*ast.Ident)
+					return ok && id.Name == "_"
+				}
+				if !isBlank(x.Key) {
+					fmt.Fprintf(&b, " %s := _simk%d; _ = %s;", w.text(x.Key), n, w.text(x.Key))
+				}
+				if !isBlank(x.Value) {
+					fmt.Fprintf(&b, " %s, _simok%d := (%s)[_simk%d]; if !_simok%d { continue };", w.text(x.Value), n, xs, n, n)
+				} else {
+					fmt.Fprintf(&b, " if _, _simok%d := (%s)[_simk%d]; !_simok%d { continue };", n, xs, n, n)
+				}
+				w.ins(x.Body.Lbrace+1, b.String())
+				w.stats["maprange"]++
+				return
+			}
 			if _, ok := t.Underlying().(*types.Chan); ok {
 				s := w.site(x.Pos(), "rangech")
 				before(fmt.Sprintf("simrt.Pre(%s); ", s))
